@@ -66,7 +66,7 @@ func nodeLines(fset *token.FileSet, n ast.Node) int {
 	if n == nil || !n.Pos().IsValid() {
 		return 1
 	}
-	return fset.Position(n.End()).Line - fset.Position(n.Pos()).Line + 1
+	return fset.PositionFor(n.End(), false).Line - fset.PositionFor(n.Pos(), false).Line + 1
 }
 
 // Roots lists pattern roots of a parsed file.
